@@ -416,6 +416,41 @@ def search_and_delete_atomic(ctx, RA, all_paths, ci) -> None:
         ctx.ok(RA, "no indexed deletion on the deque", ci.loc, nontrivial=False)
 
 
+def deque_unbounded(P):
+    """(holds, why, location): the delay queue's deque can hold any number of elements.  `deque(maxlen=n)` silently drops its *head*
+    when a full deque is appended to -- the oldest element, typically the unmatched first half of a rename the consumer is waiting
+    on -- so a bounded deque loses elements that were never handed out (shared by C17, C08 and C01)."""
+    ci = P.cls(CLS)
+    init = ci.methods.get("__init__")
+    if init is None:
+        raise AnalysisError("anchor vanished: DelayedQueue.__init__")
+    ctor = None
+    for n in ast.walk(init.node):
+        tgt = n.targets[0] if isinstance(n, ast.Assign) and len(n.targets) == 1 else (n.target if isinstance(n, ast.AnnAssign) else None)
+        if isinstance(tgt, ast.Attribute) and tgt.attr == "_queue" and isinstance(getattr(n, "value", None), ast.Call):
+            ctor = n.value
+    if ctor is None or (dotted(ctor.func) or "").split(".")[-1] != "deque":
+        raise AnalysisError("DelayedQueue.__init__: the deque construction was not found")
+    bound = ctor.args[1] if len(ctor.args) > 1 else next((k.value for k in ctor.keywords if k.arg == "maxlen"), None)
+    loc = f"{ci.module.relpath}:{ctor.lineno}"
+    if bound is None or (isinstance(bound, ast.Constant) and bound.value is None):
+        return True, "", loc
+    if isinstance(bound, ast.Name):
+        params = [a.arg for a in init.node.args.args[1:]] + [a.arg for a in init.node.args.kwonlyargs]
+        defaults = dict(zip([a.arg for a in init.node.args.args][len(init.node.args.args) - len(init.node.args.defaults) :], init.node.args.defaults))
+        defaults.update({a.arg: d for a, d in zip(init.node.args.kwonlyargs, init.node.args.kw_defaults) if d is not None})
+        if bound.id in params and isinstance(defaults.get(bound.id), ast.Constant) and defaults[bound.id].value is None:
+            pos = params.index(bound.id) if bound.id in [a.arg for a in init.node.args.args[1:]] else None
+            for m in P.modules.values():
+                for c in ast.walk(m.tree):
+                    if isinstance(c, ast.Call) and (dotted(c.func.value if isinstance(c.func, ast.Subscript) else c.func) or "").split(".")[-1] == CLS:
+                        given = next((k.value for k in c.keywords if k.arg == bound.id), c.args[pos] if pos is not None and len(c.args) > pos else None)
+                        if given is not None and not (isinstance(given, ast.Constant) and given.value is None):
+                            return False, f"`{ast.unparse(c)[:80]}` bounds the delay queue's deque (maxlen={ast.unparse(given)}): appending to a full deque drops its head, the oldest element not yet handed out", f"{m.relpath}:{c.lineno}"
+            return True, "", loc
+    return False, f"the deque is bounded (`{ast.unparse(ctor)[:60]}`): appending to a full deque drops its head, the oldest element not yet handed out", loc
+
+
 def get_paths(P):
     ci = P.cls(CLS)
     fi = ci.methods.get("get")
@@ -738,6 +773,8 @@ def run(ctx) -> None:
     ctx.check("get" in ops.get("popleft", []), RF, "dequeue=popleft", f"get() does not dequeue with popleft ({ops})", ci.loc)
     bad = {k: v for k, v in ops.items() if k in ("appendleft", "pop", "insert", "rotate", "reverse", "extendleft", "clear", "sort")}
     ctx.check(not bad, RF, "no order-changing deque operation", f"order-changing operations on the deque: {bad}", ci.loc)
+    okb, whyb, locb = deque_unbounded(P)
+    ctx.check(okb, RF, "the deque is unbounded", whyb, locb)
     ctx.check(set(ops.get("del[]", []) + ops.get("remove", [])) <= {"remove"}, RF, "indexed deletion only in remove()", f"deletion from the middle of the deque (del[] / deque.remove) in {sorted(set(ops.get('del[]', []) + ops.get('remove', [])))}", ci.loc)
     ctx.assumptions += ["threading.Condition/Lock semantics", "collections.deque append/popleft are FIFO"]
 
